@@ -276,7 +276,7 @@ Step(s, e) ==
 VARIABLES s, ev, out, h
 vars == <<s, ev, out, h>>
 
-InitHist == [ delivered |-> <<>>, procOK |-> {}, started |-> 0, startFires |-> 0, afterStop |-> FALSE, resolved |-> -1, procFailed |-> FALSE, acked |-> {}, runOK |-> {}, resetPending |-> FALSE, wasStopped |-> TRUE ]
+InitHist == [ delivered |-> <<>>, procOK |-> {}, started |-> 0, startFires |-> 0, afterStop |-> FALSE, resolved |-> -1, procFailed |-> FALSE, acked |-> {}, runOK |-> {}, resetPending |-> FALSE, wasStopped |-> TRUE, obsCur |-> <<>> ]
 Procs(o) == SelectSeq(o, LAMBDA a : a[1] = "proc")
 RECURSIVE Flat(_)
 Flat(q) == IF q = <<>> THEN <<>> ELSE Head(q)[2] \o Flat(Tail(q))
@@ -287,13 +287,15 @@ UpdHist(hh, pre, e, r) ==
         nd == Flat(Procs(o))
         \* messages whose processing completed successfully in this step: a synchronous processor returns successfully
         \* by construction; an asynchronous one when the environment says so
-        okNow == IF SyncProc THEN SeqToSet(nd) ELSE IF e.a = "ProcDone" /\ e.x = 1 THEN SeqToSet(pre.cur) ELSE {}
+        \* (the block the processor holds is known from the observable actions alone: the last one handed to it)
+        okNow == IF SyncProc THEN SeqToSet(nd) ELSE IF e.a = "ProcDone" /\ e.x = 1 THEN SeqToSet(hh.obsCur) ELSE {}
         back == nd # <<>> /\ hh.resetPending /\ hh.delivered # <<>> /\ nd[1] <= hh.delivered[Len(hh.delivered)] IN
     \* A permitted discontinuity starts a new segment: an application restart, or -- once the offset-reset policy has
     \* fired -- the first delivery that goes back (messages of the reply being worked through still drain before it).
     [ delivered |-> IF e.a = "Start" \/ back THEN nd ELSE hh.delivered \o nd,
       resetPending |-> IF e.a = "Start" \/ back THEN FALSE ELSE hh.resetPending \/ (e.a = "FetchErr" /\ e.k = "range"),
       procOK |-> hh.procOK \cup okNow,
+      obsCur |-> IF Procs(o) # <<>> THEN Procs(o)[Len(Procs(o))][2] ELSE IF e.a \in {"ProcDone", "Stop", "Start"} THEN <<>> ELSE hh.obsCur,
       \* ... those processed since the latest permitted discontinuity
       \* (a discontinuity -- restart, or the reset policy going back -- starts a new run of deliveries)
       runOK |-> IF e.a = "Start" THEN {} ELSE IF back THEN (IF SyncProc THEN SeqToSet(nd) ELSE {}) ELSE hh.runOK \cup okNow,
@@ -301,7 +303,7 @@ UpdHist(hh, pre, e, r) ==
       startFires |-> IF e.a = "Start" THEN sf ELSE hh.startFires + sf,
       afterStop |-> r.s.startD = "none",
       wasStopped |-> pre.startD = "none",      \* the event found the consumer stopped
-      procFailed |-> IF e.a = "Start" THEN FALSE ELSE hh.procFailed \/ (e.a = "ProcDone" /\ e.x = 0),
+      procFailed |-> IF e.a = "Start" THEN FALSE ELSE hh.procFailed \/ (e.a = "ProcDone" /\ e.x # 1),
       \* offsets the coordinator acknowledged (a commit it accepted) or reported (an offset fetch)
       acked |-> hh.acked \cup (IF e.a = "CommitDone" /\ e.k = "ok" THEN {pre.creq.off} ELSE {})
                         \cup (IF e.a = "OFetchDone" /\ e.x # -1 THEN {e.x} ELSE {}),
@@ -324,7 +326,9 @@ EvApp == {[a |-> "Start", x |-> p, w |-> <<>>, k |-> ""] : p \in {EARLIEST, LATE
          \cup {[a |-> a, x |-> 0, w |-> <<>>, k |-> ""] : a \in {"Stop", "Shutdown", "RetryFire", "CommitRetry", "Tick", "OffsetsErr", "OFetchErr", "ArmStop"}}
          \cup {[a |-> "OffsetsDone", x |-> o, w |-> <<>>, k |-> ""] : o \in {LogStart, LogEnd}}
          \cup {[a |-> "OFetchDone", x |-> o, w |-> <<>>, k |-> ""] : o \in {-1} \cup Log}
-         \cup {[a |-> "ProcDone", x |-> x, w |-> <<>>, k |-> ""] : x \in {0, 1}}
+         \* (x = 1: success; 0: the processor fails; 2: it fails with a cancellation of its own -- e.g. a watchdog --
+         \*  which is a failure like any other unless stop() caused it)
+         \cup {[a |-> "ProcDone", x |-> x, w |-> <<>>, k |-> ""] : x \in {0, 1, 2}}
 EvStr == {[a |-> "Commit", x |-> 0, w |-> <<>>, k |-> c] : c \in {"c1", "c2"}}
          \cup {[a |-> "FetchErr", x |-> 0, w |-> <<>>, k |-> k] : k \in {"range", "kafka"}}
          \cup {[a |-> "CommitDone", x |-> 0, w |-> <<>>, k |-> k] : k \in {"ok", "retriable", "fenced"}}
@@ -350,14 +354,14 @@ C02_no_gap ==
 \* the processor is not invoked while its previous result is pending
 C02_no_overlap == Len(Procs(out)) <= 1 \/ SyncProc
 \* C03: what is committed is the last processed offset, and everything delivered up to it was processed successfully
-C03_behind ==
-    \A k \in DOMAIN out : out[k][1] = "commit" =>
-        /\ out[k][2] = s.creq.off
+\* (stated over the observable actions and the history built from them only)
+C03_behind_obs ==
+    \A k \in DOMAIN out : (out[k][1] = "commit" /\ out[k][2] \in h.runOK) =>
         \* (an offset processed before an application-requested restart is outside this run's deliveries; what is handed
         \*  to the processor later in the same event -- a parked reply -- was not delivered when the commit was issued)
-        /\ out[k][2] \in h.runOK =>
-              LET later == UNION {SeqToSet(out[j][2]) : j \in {j2 \in DOMAIN out : j2 > k /\ out[j2][1] = "proc"}} IN
-              \A i \in DOMAIN h.delivered : (h.delivered[i] <= out[k][2] /\ h.delivered[i] \notin later) => h.delivered[i] \in h.procOK
+              (LET later == UNION {SeqToSet(out[j][2]) : j \in {j2 \in DOMAIN out : j2 > k /\ out[j2][1] = "proc"}} IN
+              \A i \in DOMAIN h.delivered : (h.delivered[i] <= out[k][2] /\ h.delivered[i] \notin later) => h.delivered[i] \in h.procOK)
+C03_behind == C03_behind_obs /\ \A k \in DOMAIN out : out[k][1] = "commit" => out[k][2] = s.creq.off
 C03_recorded == s.lc = -1 \/ s.lc \in h.acked
 \* C13: the start Deferred fires at most once per start; nothing happens once stopped
 C13_start_once == h.startFires <= 1
